@@ -272,6 +272,7 @@ CHECKS["C15"] = {
     "level_note": "Address classes are public/private by construction (ambiguous classes such as CGNAT or DNS are not generated); seeds get a harness-made public connection address; both inner DHTs share one fake host as in production.",
     "parts": [
         {"part": "dual", "pkg": "./dual/", "test": "TestVerif_C15_Dual", "quick": 3600, "thorough": 20000},
+        {"part": "findpeer-merge", "pkg": "./dual/", "test": "TestVerif_C15_FindPeerMerge", "quick": 1200, "thorough": 12000},
     ],
 }
 
